@@ -845,3 +845,129 @@ func init() {
 		}
 	})
 }
+
+// ---------- scenario 9: two Shutdown calls that overlap (while the component is in use) ----------
+
+func init() {
+	registerND("tracker-shutdown-twice-while-tracking", 2, 3, func(t *testing.T) *e1.Exec {
+		ctx := context.Background()
+		c := clus.Cid("a")
+		sh := clus.NewShared(nil)
+		model := clus.NewIPFS()
+		tr := newTracker(model, sh.State, 10)
+		pin := everywhere(c)
+		var e1s, e2s error
+		return &e1.Exec{
+			Threads: map[string]func(){
+				"T0": func() { sh.State.Add(ctx, pin); tr.Track(ctx, pin) },
+				"T1": func() { e1s = tr.Shutdown(ctx) },
+				"T2": func() { e2s = tr.Shutdown(ctx) },
+			},
+			After: func(runErr error) (string, []e1.Finding) {
+				quiesce()
+				return fmt.Sprintf("shutdown-errors=%v,%v", e1s != nil, e2s != nil), nil
+			},
+			Teardown: func() { tr.Shutdown(ctx) },
+		}
+	})
+	register("informer-numpin-shutdown-twice", 2, 3, func(t *testing.T) *e1.Exec {
+		ctx := context.Background()
+		cfg := &numpin.Config{}
+		cfg.Default()
+		inf, err := numpin.NewInformer(cfg)
+		if err != nil {
+			t.Fatal(err)
+		}
+		inf.SetClient(clus.LocalRPC(map[string]interface{}{"IPFSConnector": &clus.IPFSSvc{M: clus.NewIPFS()}}))
+		var got *api.Metric
+		return &e1.Exec{
+			Threads: map[string]func(){
+				"T0": func() { got = inf.GetMetric(ctx) },
+				"T1": func() { inf.Shutdown(ctx) },
+				"T2": func() { inf.Shutdown(ctx) },
+			},
+			After: func(runErr error) (string, []e1.Finding) {
+				return fmt.Sprintf("valid=%v", got != nil && got.Valid), nil
+			},
+		}
+	})
+	register("informer-disk-shutdown-twice", 2, 3, func(t *testing.T) *e1.Exec {
+		ctx := context.Background()
+		cfg := &disk.Config{}
+		cfg.Default()
+		inf, err := disk.NewInformer(cfg)
+		if err != nil {
+			t.Fatal(err)
+		}
+		inf.SetClient(clus.LocalRPC(map[string]interface{}{"IPFSConnector": &repoStatSvc{}}))
+		var got *api.Metric
+		return &e1.Exec{
+			Threads: map[string]func(){
+				"T0": func() { got = inf.GetMetric(ctx) },
+				"T1": func() { inf.Shutdown(ctx) },
+				"T2": func() { inf.Shutdown(ctx) },
+			},
+			After: func(runErr error) (string, []e1.Finding) {
+				return fmt.Sprintf("valid=%v", got != nil && got.Valid), nil
+			},
+		}
+	})
+	registerND("crdt-shutdown-twice-while-logging", 1, 2, func(t *testing.T) *e1.Exec {
+		ctx := context.Background()
+		_, hosts := clus.NewMocknetUnconnected(ctx, 0, 1)
+		p, err := clus.NewCRDTPeer(ctx, hosts[0], clus.NewFaultStore(), false, func(c *crdt.Config) {
+			c.Batching.MaxBatchSize = 2
+			c.Batching.MaxBatchAge = time.Hour
+			c.Batching.MaxQueueSize = 1
+		})
+		if err != nil {
+			t.Fatal(err)
+		}
+		<-p.Cons.Ready(ctx)
+		quiesce()
+		x := api.PinCid(clus.Cid("a"))
+		x.ReplicationFactorMin, x.ReplicationFactorMax = -1, -1
+		var e0 error
+		return &e1.Exec{
+			Threads: map[string]func(){
+				"T0": func() { e0 = p.Cons.LogPin(ctx, x) },
+				"T1": func() { p.Cons.Shutdown(ctx) },
+				"T2": func() { p.Cons.Shutdown(ctx) },
+			},
+			After: func(runErr error) (string, []e1.Finding) {
+				quiesce()
+				return fmt.Sprintf("a-accepted=%v", e0 == nil), nil
+			},
+			Teardown: func() { p.Stop(); hosts[0].Close() },
+		}
+	})
+	registerND("cluster-shutdown-twice-while-pinning", 1, 2, func(t *testing.T) *e1.Exec {
+		ctx := context.Background()
+		_, hosts := clus.NewMocknet(ctx, 0, 1)
+		sh := clus.NewShared([]peer.ID{hosts[0].ID()})
+		cons := clus.NewMemConsensus(hosts[0].ID(), sh)
+		tcfg := &stateless.Config{}
+		tcfg.Default()
+		tcfg.ConcurrentPins = 1
+		tr := stateless.New(tcfg, hosts[0].ID(), "p0", cons.State)
+		p, err := clus.NewPeer(ctx, &clus.PeerParts{Host: hosts[0], Consensus: cons, Shared: sh, Tracker: tr})
+		if err != nil {
+			t.Fatal(err)
+		}
+		<-p.C.Ready()
+		quiesce()
+		c := clus.Cid("a")
+		return &e1.Exec{
+			Threads: map[string]func(){
+				"T0": func() { p.C.Pin(ctx, c, api.PinOptions{Name: "x"}) },
+				"T1": func() { p.C.Shutdown(ctx) },
+				"T2": func() { p.C.Shutdown(ctx) },
+			},
+			After: func(runErr error) (string, []e1.Finding) {
+				quiesce()
+				return fmt.Sprintf("pins=%d", len(sh.Pins())), nil
+			},
+			Teardown: func() { p.Stop(); hosts[0].Close() },
+		}
+	})
+}
